@@ -352,4 +352,93 @@ def kidsSummary (d : Doc) : Option (List (List (Nat × Rat × Rat))) :=
 example : kidsSummary (fixedDoc 30) = some [[(2, 0, 70)], [(3, 0, 40), (4, 40, 50)]] := by decide +kernel
 example : kidsSummary (fixedDoc 20) = some [[(2, 0, 70), (3, 70, 100)], [(4, 0, 10)]] := by decide +kernel
 
+/-! ### boxes rebuilt by `find_earlier_page_break` (repair 24ce8bf)
+
+When an avoided break sends the layout back to an earlier break opportunity *inside* already laid-out boxes, every
+box on the way down is rebuilt with `copy_with_children` and - since the repair - loses its bottom margin, padding
+and border (`remove_decoration(end=True)`), at every nesting level. -/
+
+/-- "This fragment has no bottom decoration left, or clones it." -/
+def EndCut (f : Frag) : Prop := f.st.clone = true ∨ (f.geo.mb = 0 ∧ f.geo.pb = 0 ∧ f.geo.bb = 0)
+
+theorem endCut_cutEnd (f : Frag) : EndCut f.cutEnd := by
+  unfold EndCut
+  cases hc : f.st.clone with
+  | true => left; cases f <;> simpa [Frag.cutEnd, Frag.st] using hc
+  | false =>
+    right
+    cases f <;> simp_all [Frag.cutEnd, Geo.cutBottom, Frag.geo, Frag.st]
+
+/-- **Every box cut at an earlier page break has lost its bottom decoration** (all fragment lists): in the children kept by `find_earlier_page_break`, the last one is
+either one of the original children, untouched (the break falls after it), or a box that was cut and then has no
+bottom margin, padding or border left unless it clones its decorations. -/
+theorem findEarlier_last_is_cut : (fs : List Frag) → ∀ (kept : List Frag) (r : Resume),
+    (findEarlierGo fs).found = some (kept, r) →
+    ∃ k, kept.getLast? = some k ∧ (k ∈ fs ∨ EndCut k)
+  | [] => by
+    intro kept r h
+    simp [findEarlierGo] at h
+  | x :: xs => by
+    intro kept r h
+    rw [findEarlierGo] at h
+    dsimp only at h
+    split at h
+    · rename_i kept0 r0 hfound
+      simp only [Option.some.injEq, Prod.mk.injEq] at h
+      obtain ⟨rfl, rfl⟩ := h
+      obtain ⟨k, hk, hor⟩ := findEarlier_last_is_cut xs kept0 r0 hfound
+      refine ⟨k, ?_, ?_⟩
+      · cases kept0 with
+        | nil => simp at hk
+        | cons a l => simpa [List.getLast?_cons_cons] using hk
+      · rcases hor with hmem | hcut
+        · left; exact List.mem_cons_of_mem _ hmem
+        · right; exact hcut
+    · split at h
+      · simp only [Option.some.injEq, Prod.mk.injEq] at h
+        obtain ⟨rfl, rfl⟩ := h
+        exact ⟨x, by simp, Or.inl (List.mem_cons_self ..)⟩
+      · split at h
+        · split at h
+          · rename_i x' r1 hfe
+            simp only [Option.some.injEq, Prod.mk.injEq] at h
+            obtain ⟨rfl, rfl⟩ := h
+            exact ⟨x'.cutEnd, by simp, Or.inr (endCut_cutEnd x')⟩
+          · simp at h
+        · simp at h
+
+/-- The same one level down: the children of a box rebuilt by `find_earlier_page_break` end with an untouched
+original child or with a cut one - so the property holds along the whole chain of rebuilt boxes. -/
+theorem findEarlierFrag_kids_last (id idx : Nat) (st : PStyle) (g : Geo) (kids : List Frag) (x' : Frag) (r : Resume)
+    (h : findEarlierFrag (.block id idx st g kids) = some (x', r)) :
+    ∃ kids' k, x' = .block id idx st g kids' ∧ kids'.getLast? = some k ∧ (k ∈ kids ∨ EndCut k) := by
+  simp only [findEarlierFrag] at h
+  split at h
+  · rename_i kids' r0 hfound
+    simp only [Option.some.injEq, Prod.mk.injEq] at h
+    obtain ⟨rfl, rfl⟩ := h
+    obtain ⟨k, hk, hor⟩ := findEarlier_last_is_cut kids kids' r0 hfound
+    exact ⟨kids', k, rfl, hk, hor⟩
+  · cases h
+
+/-! Non-vacuity: a laid-out block with `padding-bottom: 5` holding a five-line paragraph fragment, followed by a
+one-line paragraph whose `break-before` is avoided: the walk cuts the block after line 3 and removes its padding. -/
+example :
+    ((findEarlierGo
+        [.block 2 0 { plainSt with pb := 5 } { y := 0, mt := 0, mb := 0, pt := 0, pb := 5, bt := 0, bb := 0, h := 50 }
+           [.para 3 0 plainSt 5 { y := 0, mt := 0, mb := 0, pt := 0, pb := 0, bt := 0, bb := 0, h := 50 }
+             [(0, 0), (1, 10), (2, 20), (3, 30), (4, 40)]],
+         .para 4 1 { plainSt with brkBefore := .avoid } 1
+           { y := 55, mt := 0, mb := 0, pt := 0, pb := 0, bt := 0, bb := 0, h := 10 } [(0, 55)]]).found.map
+      (fun kr => kr.1.map (fun k => (k.geo.pb, k.geo.h, fragLines k)))) =
+    some [(0, 50, [(3, 0), (3, 1), (3, 2), (3, 3)])] := by decide +kernel
+
+/-- Consequence for the geometry clause "a fragmented box's own bottom padding / border also fits": the border
+box of a cut box (not cloning) ends exactly where its content box ends. -/
+theorem endCut_border_bottom (f : Frag) (h : f.st.clone = false) (hc : EndCut f) :
+    f.geo.borderBoxY + f.geo.borderHeight = f.geo.contentBoxY + f.geo.h := by
+  rcases hc with hc | ⟨_, hpb, hbb⟩
+  · rw [h] at hc; cases hc
+  · simp only [Geo.borderBoxY, Geo.borderHeight, Geo.contentBoxY, hpb, hbb]; grind
+
 end Wp.C03Geo
